@@ -61,7 +61,7 @@ KINDS = ["random", "index", "checker", "ramp", "const", "random"]
 
 def gen_native(ctx):
     r, ops = ctx.rng, []
-    hi = 12 if ctx.thorough() else 9
+    hi = 16 if ctx.thorough() else 9
     for fmt, pix, nch, sel in NATIVE:
         orgs = ORGS[pix]; maxv = 1 if pix == "gray1" else 255
         for w in range(1, hi + 1):
@@ -74,7 +74,8 @@ def gen_native(ctx):
             for w in range(1, 41):
                 for h in range(1, 41):
                     if w <= hi and h <= hi: continue
-                    ops.append("rt %s %s %s %s %d %d %s" % (fmt, pix, r.choice(orgs), r.choice(DEVS), w, h, content(r, r.choice(KINDS), w, h, nch, 1, maxv)))
+                    for _ in range(3):
+                        ops.append("rt %s %s %s %s %d %d %s" % (fmt, pix, r.choice(orgs), r.choice(DEVS), w, h, content(r, r.choice(KINDS), w, h, nch, 1, maxv)))
     return ops
 
 def gen_ext(ctx):
@@ -88,7 +89,7 @@ def gen_ext(ctx):
                 k += 1
                 ops.append("rtx png %s %s %s %d %d %s" % (pix, orgs[k % len(orgs)], DEVS[(k // len(orgs)) % 4], w, h, content(r, KINDS[k % len(KINDS)], w, h, nch, cb, maxv)))
         if th:
-            for _ in range(150):
+            for _ in range(400):
                 w, h = r.range(1, 40), r.range(1, 40)
                 ops.append("rtx png %s %s %s %d %d %s" % (pix, r.choice(orgs), r.choice(DEVS), w, h, content(r, r.choice(KINDS), w, h, nch, cb, maxv)))
     tdevs = ["fn", "ss", "of"]       # tiff has no FILE* device (TIFF* instead)
@@ -181,13 +182,13 @@ def run(ctx, ops=None):
         for i in (0, len(group) // 2, len(group) - 1):
             samples.append({"op": group[i][:160], "impl": impl[i][:200], "model": (model[i][:200] if has_model else "(no model prediction: judged only)")})
         ctx.log("%s: %d ops" % (label, len(group)))
-    hi = 12 if ctx.thorough() else 9
+    hi = 16 if ctx.thorough() else 9
     return vlib.finish(ctx, "proof", obligations, discharged,
         rule="op = one write_view + read_image round trip. native (bmp/pnm/targa x every supported pixel type): every w,h in 1..%d x every organisation "
              "(interleaved, planar, sub-view, (2,2)-stepped, flipped, other channel order; gray1: image and bit-offset sub-view) and x every destination kind (file name, FILE*, stringstream, fstream)%s; "
              "written bytes compared byte-for-byte with the model encoder, read-back image with the model decoder, Spec (read back == source) judged on the real output. "
              "png (11 pixel types) / tiff (11 pixel types x strip/tile16/tile32 x none/lzw/deflate/packbits) / jpeg (3): real round trip judged. "
-             "non-trivial = image with more than one pixel (distinct op lines counted)" % (hi, "; plus one random organisation/destination for every w,h in 1..40" if ctx.thorough() else ""),
+             "non-trivial = image with more than one pixel (distinct op lines counted)" % (hi, "; plus three random organisation/destination/content choices for every w,h in 1..40" if ctx.thorough() else ""),
         samples=samples, distinct_nontrivial=distinct, assumptions=ASSUME, trusted_base=vlib.TRUSTED_BASE + [
             "libpng / libtiff / libjpeg (ExtCodec contract) for the PNG / TIFF / JPEG clauses"],
         extra={"ops_by_group": counts, "known_finding_inputs": ctx.cov.get("known_finding_inputs", {}),
